@@ -68,6 +68,22 @@ CHECKS["C12"] = dict(
     technique="TLA+ spec explored with TLC per corpus flag; spec-generated answer tables replayed into the real generated flag types and synthesised flag structs",
 )
 
+CHECKS["C16"] = dict(
+    category="fault_enumeration",
+    text="spec/WowmStatic.tla: version lattice (15 laws incl. Covers = inclusion / Overlaps = meeting of the sets of client versions, checked by TLC over {1, 1.12, 1.12.1, 1.12.1.5875, 2, 2.4.3, 3, 3.3.5, *}), lookup through versions with paste copies, and 21 static rules with their exit statuses as a rule-by-rule machine; TLC shows Diagnose(corpus) = 0 over the 1,907 corpus objects and predicts the status of every mutant. Mutants = ONE textual edit of the real corpus per (rule, site class[, variant]): 162 (quick) / 640 (thorough) of ~24,800 candidates over object classes plain / #tag_all / paste_versions / shared struct x blocks top / if / else-if / else / optional, incl. lookup-interplay edits (dropping or specialising a provider's version) and well-formed controls; the real generator is run on each mutant tree: exit status = prediction, unmodified tree exits 0, rejected runs remove nothing (H2 trace).",
+    design_ref="DESIGN.md section 5 C16, notes/C16.md",
+    note="Trusted: tools/wowm_front.py (re-reads every mutant text), tools/static_lower.py, the textual extraction of the opcode index, exit statuses of error_printer/mod.rs, TLC. Rules the documents do not spell out (recursion, self.size position, opcode index) are modelled in their narrowest sense; signed base types use the wide range; mutants breaking two rules are excluded and counted (rule order is not specified). Not covered: test statements, indirect recursion, rule 23, syntax errors.",
+    technique="TLA+ spec model-checked with TLC (lattice laws, corpus well-formedness, locality lemma); TLC-predicted diagnostics of enumerated single-fault mutants replayed into the real generator",
+)
+
+CHECKS["C04"] = dict(
+    category="fault_enumeration",
+    text="The fault families of spec/WowmWire.tla (C04EnumFaults, C04SizeFaults, OpFaults) alter the canonical encodings produced by the wire walker in exactly the three specified ways and state the outcome the definition demands: every enum-typed field event of every behaviour (nested in structs, arrays, conditional arms; upcast or not) set at full wire width to all-ones, max+1, the smallest gap and - for upcast fields - every declared value + 2^(8*base width) => error naming that number; every constant-sized message (interval abstraction lo = hi) one/four bytes longer, one byte shorter, empty => error; every opcode adjacent to a defined one or at the extremes that is undefined for the direction and version => unknown-opcode error naming it. ~55k faults (quick) are presented to the real public readers.",
+    design_ref="DESIGN.md section 5 C04",
+    note="Trusted: the wire model's typing of fields (a fault is only injected where the MODEL says the field is an enum of that width), parsing of the library's error Debug text for the reported number, spec/MCConst.tla for constant-sizedness, TLC. Fault sites come from profile-0 behaviours (every control path, arrays 0..2, later elements deterministic).",
+    technique="fault families defined in the TLA+ wire spec, enumerated by TLC per behaviour; every fault replayed into the real decoders with the specified outcome as oracle",
+)
+
 NOT_YET = {}
 
 def main():
